@@ -322,6 +322,12 @@ fn curve3(spec: &Curve3Spec, t: &Iso3D, t2: &Iso3D, qs: &[P3], ls: &[f64], close
     let scale = b.model.scale();
     let tol = tol3(t, scale) + tol3(t2, 0.0);
     let with_close;
+    // the margin of the inserted edge over the tolerance must survive the rounding of the coordinates in both frames
+    let mag = scale + b.model.v.iter().fold(0.0f64, |m, p| m.max(p.coords.amax())) + v3(&t.t).norm() + v3(&t2.t).norm();
+    let close = match close {
+        Some((_, _, k)) if (*k - 1.0) * spec.tol < 256.0 * f64::EPSILON * mag => &None,
+        other => other,
+    };
     let c = match close {
         Some((i, dir, k)) => {
             let mut pts: Vec<Point3> = b.curve.points().to_vec();
@@ -388,7 +394,13 @@ fn curve3(spec: &Curve3Spec, t: &Iso3D, t2: &Iso3D, qs: &[P3], ls: &[f64], close
             near && !(s0.fraction() == 0.0 || s0.fraction() == 1.0) || (near && s1.fraction() != s0.fraction())
         };
         cx.label_if(near_vertex, "station_beside_vertex");
-        ensure!(cusp || near_vertex || s0.direction().x.is_nan() || (iso.rotation * s0.direction().into_inner() - s1.direction().into_inner()).norm() <= 1e-7, "C03/curve3/station_direction", "station direction is not rotated only");
+        // the direction of a very short edge inherits the rounding of its end points' coordinates
+        let dir_tol = {
+            let v = c.points();
+            let i = s0.index().min(v.len() - 2);
+            1e-7 + 64.0 * f64::EPSILON * mag / (v[i + 1] - v[i]).norm().max(1e-300)
+        };
+        ensure!(cusp || near_vertex || s0.direction().x.is_nan() || (iso.rotation * s0.direction().into_inner() - s1.direction().into_inner()).norm() <= dir_tol, "C03/curve3/station_direction", "station direction is not rotated only");
     }
     let back = tc.transformed_by(&iso.inverse());
     ensure!(back.count() == c.count(), "C03/curve3/inverse", "T^-1 T changed the count");
